@@ -420,6 +420,52 @@ func checkC11(c *Ctx, r *Report) {
 		}
 	}
 	// EncodeResponse header rule
+	// the same two header arguments at every other EncodeResponse call of the module (the server's
+	// error reply, the proxy's merged and local replies): the reply is encoded at the version the
+	// client asked in, with the client's correlation id
+	for _, pk := range []string{pkgBrokerLib, pkgProxy} {
+		var pfns []*ssa.Function
+		for _, fn0 := range m.FuncsInPkg(pk) {
+			pfns = append(pfns, withAnon(fn0)...)
+		}
+		sort.Slice(pfns, func(i, j int) bool { return pfns[i].Pos() < pfns[j].Pos() })
+		seenKey := map[string]int{}
+		for _, fn := range pfns {
+			for _, enc := range findCalls(fn, pkgProtocol+".EncodeResponse") {
+				r.CallSites++
+				r.fn(fn)
+				args := enc.Common().Args
+				key := fmt.Sprintf("EncodeResponse in %s uses the request's correlation id and version", funcName(fn))
+				seenKey[key]++
+				if seenKey[key] > 1 {
+					key = fmt.Sprintf("%s [%d]", key, seenKey[key])
+				}
+				var bad []string
+				if _, f, _, ok := fieldOf(args[0]); !ok || f != "CorrelationID" {
+					bad = append(bad, "correlation id is "+describe(args[0])+", not header.CorrelationID")
+				}
+				verOK := true
+				for _, o := range origins(args[1]) {
+					_, f, _, okf := fieldOf(o)
+					k, okc := constInt(o)
+					if !(okf && f == "APIVersion") && !(okc && k == 0) {
+						verOK = false
+					}
+				}
+				if len(origins(args[1])) == 0 {
+					verOK = false
+				}
+				if !verOK {
+					bad = append(bad, "version argument is "+describe(args[1])+", not header.APIVersion: the client cannot decode a reply encoded at another version")
+				}
+				if len(bad) == 0 {
+					r.ok("C11.T5", key, m.Pos(enc.Pos()), "")
+				} else {
+					r.viol("C11.T5", key, m.Pos(enc.Pos()), strings.Join(bad, "; "))
+				}
+			}
+		}
+	}
 	if er := needFn(m, r, "C11.T5", pkgProtocol, "EncodeResponse"); er != nil {
 		okFlex, okKey := false, false
 		for _, call := range callsIn(er) {
